@@ -389,7 +389,7 @@ fn tag_case(i: usize) -> CaseResult {
 // ------------------------------------------------------------------------------------------------
 // negatives: text that is not a well-formed document, or a map with a non-string key
 
-const NEGATIVES: [(&str, &str); 20] = [
+const NEGATIVES: [(&str, &str); 25] = [
     ("{1: a}\n", "integer key (flow)"),
     ("1: a\n", "integer key (block)"),
     ("{[a]: b}\n", "sequence key"),
@@ -397,6 +397,12 @@ const NEGATIVES: [(&str, &str); 20] = [
     ("{null: 1}\n", "null key"),
     ("{true: 1}\n", "boolean key"),
     ("{1.5: x}\n", "float key"),
+    // the short form of an intrinsic function is a map (`!Ref x` = `{Ref: x}`): not a string key
+    ("!Ref Env: prod\n", "tagged key (block)"),
+    ("Tags:\n  !Ref Env: prod\n  Other: 1\n", "tagged key (nested)"),
+    ("{!Sub x: 1}\n", "tagged key (flow)"),
+    ("? !GetAtt a.b\n: 1\n", "tagged key (explicit)"),
+    ("a:\n  - !Join [',', [a]]: 1\n", "tagged sequence key"),
     ("{\"a\": [1, 2}", "mismatched brackets"),
     ("{\"a\": 1}}", "trailing brace after the document"),
     ("[1, 2]]", "trailing bracket after the document"),
